@@ -50,21 +50,26 @@ def run_one(entry):
         return dict(name=entry["name"], ok=allok, results=res)
     finally:
         shutil.rmtree(d, ignore_errors=True)
-        # evidence / replays written while checking a scratch copy are not evidence about /repo
-        subprocess.run(["git", "checkout", "--", "evidence"], cwd=ROOT, capture_output=True)
+        # (evidence / replays of scratch-copy runs go to .scratch/, never to evidence/)
 
 
 def main():
     cat = json.load(open(os.path.join(ROOT, "selftest", "catalog.json")))
+    sd = os.path.join(ROOT, "seeded")
+    for d in sorted(os.listdir(sd)) if os.path.isdir(sd) else []:
+        mp = os.path.join(sd, d, "meta.json")
+        if os.path.exists(mp):
+            meta = json.load(open(mp))
+            cat.append(dict(name="seeded-" + d, patch=f"seeded/{d}/patch.diff", checks=meta.get("checks") or [meta["property"]]))
     sel = sys.argv[1:]
     bad = 0
     for e in cat:
         if sel and not any(s in e["name"] for s in sel):
             continue
         r = run_one(e)
-        print(("OK   " if r["ok"] else "MISS ") + json.dumps(r))
+        print(("OK   " if r["ok"] else "MISS ") + json.dumps(r), flush=True)
         bad += 0 if r["ok"] else 1
-    shutil.rmtree(os.path.join(ROOT, "replays"), ignore_errors=True)
+    shutil.rmtree(os.path.join(ROOT, ".scratch"), ignore_errors=True)
     sys.exit(1 if bad else 0)
 
 
